@@ -10,6 +10,7 @@ import (
 	"os"
 	"sort"
 	"strings"
+	"time"
 
 	"golang.org/x/tools/go/callgraph"
 	"golang.org/x/tools/go/callgraph/cha"
@@ -50,6 +51,31 @@ type Program struct {
 // Load loads Dir (normally /repo). overlay maps absolute file names to
 // replacement contents (used for control mutants, in memory only).
 func Load(dir string, cfg Config, overlay map[string][]byte) (*Program, error) {
+	// A load can fail for reasons that have nothing to do with the tree (the go command killed or starved while the
+	// machine is overloaded): such a failure is retried before it is reported. A tree that really does not
+	// type-check fails the same way every time.
+	var p *Program
+	var err error
+	for attempt := 0; attempt < 3; attempt++ {
+		if attempt > 0 {
+			time.Sleep(time.Duration(attempt) * 2 * time.Second)
+		}
+		p, err = loadOnce(dir, cfg, overlay)
+		if err == nil {
+			return p, nil
+		}
+	}
+	return nil, err
+}
+
+// minimal sizes of a complete load of this module (about half of what the pinned tree has: 30 packages, 535
+// hand-written functions with bodies): a program below them was not loaded completely
+const (
+	minModulePackages = 15
+	minModuleFuncs    = 250
+)
+
+func loadOnce(dir string, cfg Config, overlay map[string][]byte) (*Program, error) {
 	env := append(os.Environ(),
 		"GOFLAGS=-mod=mod", "GOPROXY=off", "GOSUMDB=off", "GOWORK=off", "GOTOOLCHAIN=local", "CGO_ENABLED=0")
 	if cfg.GOOS != "" {
@@ -71,14 +97,33 @@ func Load(dir string, cfg Config, overlay map[string][]byte) (*Program, error) {
 	p := &Program{Dir: dir, Config: cfg, Fset: pc.Fset, ByPath: map[string]*packages.Package{},
 		fileOf: map[*ast.File]*packages.Package{}, astFunc: map[*types.Func]*ast.FuncDecl{}}
 	var errs []string
+	var depErrs []string
 	packages.Visit(initial, nil, func(pk *packages.Package) {
 		p.ByPath[pk.PkgPath] = pk
 		if IsModPath(pk.PkgPath) {
 			for _, e := range pk.Errors {
 				errs = append(errs, e.Error())
 			}
+			if pk.Types == nil || pk.TypesInfo == nil || (len(pk.GoFiles) > 0 && len(pk.Syntax) == 0) {
+				errs = append(errs, pk.PkgPath+": loaded without syntax/type information")
+			}
+		} else if len(pk.Errors) > 0 || pk.IllTyped {
+			// a dependency that did not load: everything that reads its source (method bodies of standard-library
+			// types, contracts of redact) would silently see nothing
+			msg := pk.PkgPath + ": dependency not loaded"
+			if len(pk.Errors) > 0 {
+				msg += " (" + pk.Errors[0].Error() + ")"
+			}
+			depErrs = append(depErrs, msg)
 		}
 	})
+	if len(depErrs) > 0 {
+		sort.Strings(depErrs)
+		if len(depErrs) > 5 {
+			depErrs = depErrs[:5]
+		}
+		return nil, fmt.Errorf("load: incomplete (%s): %s", cfg, strings.Join(depErrs, "; "))
+	}
 	for _, pk := range initial {
 		if IsModPath(pk.PkgPath) {
 			p.Mod = append(p.Mod, pk)
@@ -119,6 +164,9 @@ func Load(dir string, cfg Config, overlay map[string][]byte) (*Program, error) {
 		}
 		return a.String() < b.String()
 	})
+	if len(p.Mod) < minModulePackages || len(p.HandFuncs()) < minModuleFuncs {
+		return nil, fmt.Errorf("load: incomplete (%s): %d module packages, %d hand-written functions with bodies (expected at least %d and %d)", cfg, len(p.Mod), len(p.HandFuncs()), minModulePackages, minModuleFuncs)
+	}
 	return p, nil
 }
 
